@@ -1522,6 +1522,115 @@ func sectionDestinations() {
 	}
 }
 
+// ---------------------------------------------------------------- user structs with [N]byte fields
+
+// The reflection codec is open to user-defined structs: a [N]byte field is
+// `bits (8*N)` for every N a cell can hold (1..127), not only for the widths
+// the library's own BitsN types use. Alone, between other fields (so that a
+// wrong width shifts what follows), two arrays in a row; bit-exact against the
+// bytes written one after another, and decoded back - from the cell tongo
+// produced and from the reference encoding.
+func sectionByteArrays() {
+	var widths []int
+	if R.Thorough() {
+		for n := 1; n <= 127; n++ {
+			widths = append(widths, n)
+		}
+	} else {
+		widths = []int{1, 2, 3, 8, 20, 32, 33, 48, 63, 64, 65, 66, 80, 96, 100, 126, 127}
+	}
+	tU8 := reflect.TypeOf(uint8(0))
+	fill := func(rng *mon.Rng, v reflect.Value, pattern int) []byte {
+		b := rng.Bytes(v.Len())
+		switch pattern % 4 {
+		case 1:
+			for i := range b {
+				b[i] = 0xff
+			}
+		case 2:
+			for i := range b {
+				b[i] = byte(i + 1)
+			}
+		}
+		reflect.Copy(v, reflect.ValueOf(b))
+		return b
+	}
+	check := func(sig string, v reflect.Value, want []bool, wit map[string]any) {
+		R.Eval(fmt.Sprintf("%s/%v", sig, wit["case"]))
+		c := marshal(sig, v.Interface(), wit)
+		if !expect(sig, c, cell.New(want, false), wit) {
+			return
+		}
+		for _, from := range []string{"produced", "reference"} {
+			src := c
+			if from == "reference" {
+				t := tongoCell(cell.New(want, false))
+				src = &t
+			}
+			src.ResetCounters()
+			back := reflect.New(v.Type())
+			var err error
+			if p := mon.Guard(func() { err = tlb.Unmarshal(src, back.Interface()) }); p != nil || err != nil {
+				wit["err"], wit["decoded_from"] = fmt.Sprint(err, p), from
+				R.Violation("decode-failed@"+sig, wit)
+				return
+			}
+			if !reflect.DeepEqual(back.Elem().Interface(), v.Interface()) {
+				wit["decoded"], wit["decoded_from"] = mon.Trunc(fmt.Sprintf("%+v", back.Elem().Interface()), 800), from
+				R.Violation("decode-mismatch@"+sig, wit)
+				return
+			}
+		}
+	}
+	reps := R.N(4, 24)
+	for _, n := range widths {
+		arr := reflect.ArrayOf(n, tU8)
+		R.Seen("byte_array_widths", fmt.Sprint(n))
+		for k := 0; k < reps; k++ {
+			rng := R.Rng(fmt.Sprintf("bytearr/%d", n), k)
+			// alone
+			v := reflect.New(arr).Elem()
+			b := fill(rng, v, k)
+			wit := map[string]any{"case": fmt.Sprintf("%d/%d", n, k), "width_bytes": n, "bytes": mon.HexTrunc(b, 140)}
+			check("user-struct/[N]byte/alone", v, rb.BytesBits(b), wit)
+			// between other fields: whatever fits one cell around 8*n bits
+			var st reflect.Type
+			var pre, post []bool
+			var setPre, setPost func(reflect.Value)
+			if 8*n+7+32 <= 1023 {
+				a, z := rng.Intn(128), uint32(rng.Uint64())
+				st = reflect.StructOf([]reflect.StructField{{Name: "A", Type: reflect.TypeOf(tlb.Uint7(0))}, {Name: "X", Type: arr}, {Name: "Z", Type: reflect.TypeOf(uint32(0))}})
+				pre, post = rb.UintBits(uint64(a), 7), rb.UintBits(uint64(z), 32)
+				setPre, setPost = func(f reflect.Value) { f.SetUint(uint64(a)) }, func(f reflect.Value) { f.SetUint(uint64(z)) }
+			} else {
+				a, z := rng.Bool(), rng.Intn(32)
+				st = reflect.StructOf([]reflect.StructField{{Name: "A", Type: reflect.TypeOf(false)}, {Name: "X", Type: arr}, {Name: "Z", Type: reflect.TypeOf(tlb.Uint5(0))}})
+				pre, post = []bool{a}, rb.UintBits(uint64(z), 5)
+				setPre, setPost = func(f reflect.Value) { f.SetBool(a) }, func(f reflect.Value) { f.SetUint(uint64(z)) }
+			}
+			sv := reflect.New(st).Elem()
+			setPre(sv.Field(0))
+			b = fill(rng, sv.Field(1), k+1)
+			setPost(sv.Field(2))
+			wit = map[string]any{"case": fmt.Sprintf("%d/%d", n, k), "width_bytes": n, "struct": st.String(), "bytes": mon.HexTrunc(b, 140)}
+			check("user-struct/[N]byte/between-fields", sv, cat(pre, rb.BytesBits(b), post), wit)
+			// two arrays in a row, then a field
+			m := mon.Pick(rng, widths)
+			if 8*(n+m)+1+16 <= 1023 {
+				st2 := reflect.StructOf([]reflect.StructField{{Name: "A", Type: reflect.TypeOf(false)}, {Name: "X", Type: arr}, {Name: "Y", Type: reflect.ArrayOf(m, tU8)}, {Name: "Z", Type: reflect.TypeOf(uint16(0))}})
+				a, z := rng.Bool(), uint16(rng.Uint64())
+				tv := reflect.New(st2).Elem()
+				tv.Field(0).SetBool(a)
+				bx := fill(rng, tv.Field(1), k+2)
+				by := fill(rng, tv.Field(2), k+3)
+				tv.Field(3).SetUint(uint64(z))
+				wit = map[string]any{"case": fmt.Sprintf("%d+%d/%d", n, m, k), "width_bytes": n, "second_width_bytes": m, "struct": st2.String()}
+				check("user-struct/[N]byte/two-in-a-row", tv, cat([]bool{a}, rb.BytesBits(bx), rb.BytesBits(by), rb.UintBits(uint64(z), 16)), wit)
+			}
+		}
+	}
+}
+
 // ---------------------------------------------------------------- (3) real data
 
 // unique reports whether re-encoding the decoded value is determined by the
@@ -1730,7 +1839,7 @@ func main() {
 		tier = os.Args[1]
 	}
 	R = mon.Start("C04", tier)
-	R.Rule = "(1) every UintN/IntN/VarUIntegerN/BitsN type of the registry at its boundary values, Go integer kinds, Unary, Magic tags (# and $), the first bits of every tagged struct and of every constructor of every reflectively encoded union, Maybe/Either/EitherRef/Ref and the ^/maybe/maybe^ field tags, compared bit by bit with an independent bit-list encoder; (2) MsgAddress (4 kinds, anycast), Grams, CurrencyCollection, CommonMsgInfo (3 kinds), StateInit, Message (init none/inline/ref x body inline/ref) and ton.CreateExternalMessage over random values against reference encoders transcribed from block.tlb (bits and refs, recursively); SimpleLib, Account (none/uninit/active/frozen) and ShardAccount; where the schema has ^Cell (state-init code/data, SimpleLib root, vm_stk_cell/builder) a third of the cells are exotic (library, Merkle proof/update, pruned branch) and a quarter of the referenced message bodies are library cells: the reference must point to that very cell (type compared, and the representation hash against the reference model when no pruned branch is involved); VM stacks also built with Put (bottom value first), stack slices covering a part of their cell (decoded from a reference encoding, re-encoded, and VmCellSlice.Cell() against the sub-slice), Int257FromInt64 / VarUInteger16FromInt64 at int64 boundaries; the wallet-v5 value types W5Actions (0..10 actions, 255 at the thorough tier, distinct modes and messages), W5ExtendedActions, MessageV5 (3 constructors x actions present/absent x extended actions) and MessageV5Beta against a transcription of the wallet-v5 schema; destination classes of tlb.Marshal(c, v): c fresh / parsed from a BOC written by tongo, by the reference writer, or through the JSON form, each empty / with a byte-aligned / with an unaligned prefix of bits (and a reference), for 12 kinds of values with hash, BitsN, byte-array, address, number and ^Cell fields: what follows the prefix equals the reference encoding; (3) every transaction and message of the real blocks (tlb/testdata and ton/testdata/raw-13516764.bin) re-encoded and compared by hash with its source cell wherever the encoding is unique (no non-empty dictionary, no unimplemented encoder), and once more after every cell of the decoded record has been read in place (32 bits, one reference); non-trivial = an encoding that was compared; distinct = distinct (structure, shape, value/case)"
+	R.Rule = "(1) every UintN/IntN/VarUIntegerN/BitsN type of the registry at its boundary values, Go integer kinds, Unary, Magic tags (# and $), the first bits of every tagged struct and of every constructor of every reflectively encoded union, Maybe/Either/EitherRef/Ref and the ^/maybe/maybe^ field tags, compared bit by bit with an independent bit-list encoder; (2) MsgAddress (4 kinds, anycast), Grams, CurrencyCollection, CommonMsgInfo (3 kinds), StateInit, Message (init none/inline/ref x body inline/ref) and ton.CreateExternalMessage over random values against reference encoders transcribed from block.tlb (bits and refs, recursively); SimpleLib, Account (none/uninit/active/frozen) and ShardAccount; where the schema has ^Cell (state-init code/data, SimpleLib root, vm_stk_cell/builder) a third of the cells are exotic (library, Merkle proof/update, pruned branch) and a quarter of the referenced message bodies are library cells: the reference must point to that very cell (type compared, and the representation hash against the reference model when no pruned branch is involved); VM stacks also built with Put (bottom value first), stack slices covering a part of their cell (decoded from a reference encoding, re-encoded, and VmCellSlice.Cell() against the sub-slice), Int257FromInt64 / VarUInteger16FromInt64 at int64 boundaries; the wallet-v5 value types W5Actions (0..10 actions, 255 at the thorough tier, distinct modes and messages), W5ExtendedActions, MessageV5 (3 constructors x actions present/absent x extended actions) and MessageV5Beta against a transcription of the wallet-v5 schema; destination classes of tlb.Marshal(c, v): c fresh / parsed from a BOC written by tongo, by the reference writer, or through the JSON form, each empty / with a byte-aligned / with an unaligned prefix of bits (and a reference), for 12 kinds of values with hash, BitsN, byte-array, address, number and ^Cell fields: what follows the prefix equals the reference encoding; user-defined structs (built with reflect.StructOf) with [N]byte fields, N = 1..127 bytes (every N at the thorough tier, a spread around 63/64/65, 96, 127 at quick), alone / between other fields / two in a row, bit-exact and decoded back from the produced and from the reference cell; (3) every transaction and message of the real blocks (tlb/testdata and ton/testdata/raw-13516764.bin) re-encoded and compared by hash with its source cell wherever the encoding is unique (no non-empty dictionary, no unimplemented encoder), and once more after every cell of the decoded record has been read in place (32 bits, one reference); non-trivial = an encoding that was compared; distinct = distinct (structure, shape, value/case)"
 	R.Assume("reference encoders in props/c04 are literal transcriptions of the block.tlb constructors quoted above them; dictionaries are kept empty in (2) because label forms are a free choice")
 	R.Assume("source-cell hashes of real records are the ones tongo reports (Transaction.Hash, Message.Hash(false)); that they equal the reference hash of a cell of the block is C16's business")
 	R.Assume("exotic cells are handed to tongo as in-memory cells (boc.NewCellExotic) with ordinary children; a pruned branch below a built cell is compared structurally only, because cells built in memory carry no level mask (hash and level of such trees are C02's business)")
@@ -1742,6 +1851,7 @@ func main() {
 	sectionVmStack()
 	sectionWalletV5()
 	sectionDestinations()
+	sectionByteArrays()
 	sectionReal()
 	R.Sample(map[string]any{"kind": "Message", "example": "int_msg_info$0 + addr_std with anycast + init as ^StateInit + inline body: bits and refs equal the reference transcription"})
 	os.Exit(R.Finish())
